@@ -91,6 +91,16 @@ def Node.setBase : Node → Base → Node
   | .list _ v c d, b => .list b v c d
   | .obj _ k, b => .obj b k
 
+/-- the swap of the two `name` pointers in `conf_replace_value`'s "present in both" branch -/
+def Node.rename (n : Node) (nm : Bytes) : Node := n.setBase { n.base with name := nm }
+
+@[simp] theorem Node.rename_kind (n : Node) (nm : Bytes) : (n.rename nm).kind = n.kind := by
+  cases n <;> rfl
+@[simp] theorem Node.rename_name (n : Node) (nm : Bytes) : (n.rename nm).name = nm := by
+  cases n <;> rfl
+theorem Node.rename_self (n : Node) : n.rename n.name = n := by
+  cases n <;> rfl
+
 /-- a hook call: node kind and the names from below the root down to the node -/
 structure HookRec where
   kind : Nat
@@ -336,9 +346,10 @@ def walk (V : Variant) (sv : Bool) : Nat → List Bytes → List Node → List N
       let (rest, m, e) ← walk V sv fuel pfx ts (s :: ss) e
       .ok (t'.toList ++ rest, m || t'.isNone, e)
     else do
-      let (t', e) ← replaceNode V sv fuel pfx t (some s) e
+      -- present in both: the entry takes the new file's spelling of its name
+      let (t', e) ← replaceNode V sv fuel pfx (t.rename s.name) (some s) e
       let (rest, m, e) ← walk V sv fuel pfx ts ss e
-      .ok (t'.toList ++ rest, m, e)
+      .ok (t'.toList ++ rest, m || (t.name != s.name), e)
 
 /-- `for (; tnode; tnode = next) conf_replace_value(tnode, NULL)` -/
 def revertAll (V : Variant) (sv : Bool) : Nat → List Bytes → List Node → Eff →
